@@ -477,6 +477,11 @@ class Unknown(Exception):
     pass
 
 
+KNOWN_CALLS = {}
+# interval environment of the row being examined: sub-terms whose interval was narrowed by a comparison on the path
+IENV = {}
+
+
 class EvalPanic(Exception):
     """the std operation itself panics for these operands (division by zero, MIN rem -1, ...)"""
 
@@ -491,6 +496,8 @@ def ceval(ex, t, env):
         if v is None:
             raise Unknown('const')
         return (t[1], v)
+    if tag == 'call' and not t[2] and cpath(ex, t).split('::')[-1] in KNOWN_CALLS:
+        return KNOWN_CALLS[cpath(ex, t).split('::')[-1]]
     if tag == 'cast':
         ty, a = t[2], ceval(ex, t[3], env)
         k = t[1]
@@ -609,10 +616,16 @@ def ceval(ex, t, env):
     raise Unknown(tag)
 
 
+# zero-argument functions of the corpus prelude written as bounds (`less = limf_f64()`): what they return is the corpus's
+# own text, recorded with the declaration; set per declaration by the float rule
+
+
 def ieval(ex, t, var, vty, vlo, vhi):
     """interval evaluation (closed interval, both ends attained or over-approximated) of a scalar term
     that depends on `var` only; every supported operation is monotone and correctly rounded, so the
     image of [vlo, vhi] is contained in the returned interval. Raises Unknown otherwise."""
+    if t in IENV:
+        return IENV[t]
     if t == var:
         return (vty, vlo, vhi)
     tag = t[0]
@@ -654,6 +667,16 @@ def ieval(ex, t, var, vty, vlo, vhi):
             if r != r:
                 raise Unknown('nan')
             return fval(ty, r)
+        inf = float('inf')
+        # an *interior* combination that is NaN (inf - inf, 0 * inf, inf / inf) is not seen at the corners: refuse
+        if op == 'Add' and ((a[2] == inf and b[1] == -inf) or (a[1] == -inf and b[2] == inf)):
+            raise Unknown('nan possible')
+        if op == 'Sub' and ((a[2] == inf and b[2] == inf) or (a[1] == -inf and b[1] == -inf)):
+            raise Unknown('nan possible')
+        if op == 'Mul' and ((a[1] <= 0 <= a[2] and (b[1] == -inf or b[2] == inf)) or (b[1] <= 0 <= b[2] and (a[1] == -inf or a[2] == inf))):
+            raise Unknown('nan possible')
+        if op == 'Div' and (a[1] == -inf or a[2] == inf) and (b[1] == -inf or b[2] == inf):
+            raise Unknown('nan possible')
         if op == 'Sub':
             cands = [f(a[1], b[2]), f(a[2], b[1])]
         elif op == 'Add':
@@ -677,6 +700,9 @@ def ieval(ex, t, var, vty, vlo, vhi):
         a = ieval(ex, strip_view(ex, t[2][0]), var, vty, vlo, vhi)
         lo = 0.0 if a[1] <= 0 <= a[2] else min(abs(a[1]), abs(a[2]))
         return (a[0], lo, max(abs(a[1]), abs(a[2])))
+    if tag == 'call' and not t[2] and cpath(ex, t).split('::')[-1] in KNOWN_CALLS:
+        ty_, v_ = KNOWN_CALLS[cpath(ex, t).split('::')[-1]]
+        return (ty_, v_, v_)
     raise Unknown(tag)
 
 
@@ -705,6 +731,43 @@ def cond_possible(ex, cnd, val, var, vty, vlo, vhi):
             can_false = math.isinf(a[1]) or math.isinf(a[2])
             return can_true if t else can_false
     raise Unknown('cond shape')
+
+
+def refine_by_comparisons(ex, conds, var, vty, vlo, vhi):
+    """narrow IENV with the comparisons on the path (all of them hold together): A >= B gives A.lo >= B.lo and
+    B.hi <= A.hi, etc. Strict comparisons are treated as non-strict (still an over-approximation). Assumes no operand
+    is NaN (established by the caller for the variable; ieval refuses NaN-producing arithmetic). Returns False if some
+    comparison cannot hold at all (the row is infeasible)."""
+    for _ in range(3):
+        for cn, v in conds:
+            t = truth(v)
+            c = cn
+            while c[0] == 'un' and c[1] == 'Not':
+                c = c[2]
+                t = not t
+            if c[0] != 'bin' or c[1] not in ('Lt', 'Le', 'Gt', 'Ge'):
+                continue
+            try:
+                a = ieval(ex, c[2], var, vty, vlo, vhi)
+                b = ieval(ex, c[3], var, vty, vlo, vhi)
+            except Unknown:
+                continue
+            if not (sym.is_float(a[0]) and sym.is_float(b[0])):
+                continue
+            ge = (c[1] in ('Ge', 'Gt')) == t      # the path says A >= B (or >) ; otherwise A <= B (or <)
+            if ge:
+                na = (a[0], max(a[1], b[1]), a[2])
+                nb = (b[0], b[1], min(b[2], a[2]))
+            else:
+                na = (a[0], a[1], min(a[2], b[2]))
+                nb = (b[0], max(b[1], a[1]), b[2])
+            if na[1] > na[2] or nb[1] > nb[2]:
+                return False
+            if c[2][0] != 'const':
+                IENV[c[2]] = na
+            if c[3][0] != 'const':
+                IENV[c[3]] = nb
+    return True
 
 
 def monotone_inc(ex, t, var):
@@ -848,6 +911,10 @@ def check_arbitrary_float(rep, g):
     G, c = fd
     var = ('field', ('downcast', G, 0, 'Ok'), 0)
     ty, samples = draw_samples(g.F, c)
+    KNOWN_CALLS.clear()
+    for v in d['validators']:
+        if v.get('form') == 'call' and isinstance(v.get('value'), (int, float)) and v.get('text', '').endswith('()'):
+            KNOWN_CALLS[v['text'][:-2].split('::')[-1]] = (d['inner'], fval(d['inner'], float(v['value'])))
     nrows = 0
     for o in outs:
         if o.kind != 'diverge':
@@ -900,47 +967,61 @@ def check_arbitrary_float(rep, g):
                 for t in walk(cn):
                     if t[0] == 'call' and cname(ex, t) in ('from_be_bytes', 'from_ne_bytes'):
                         leaves.add(t)
-            row_var, row_ty = var, ty
+            # candidates for the interval variable: the first draw, or one of the opaque floats rebuilt from mutated bytes
+            # (a row may mention two of them - the rejected `from_be_bytes` and the accepted `from_ne_bytes`); an attempt
+            # that proves some condition impossible is a proof on its own, conditions over other leaves are skipped
+            cands_ = [(var, ty)] + [(lf, d['inner']) for lf in sorted(leaves, key=str)]
             if len(leaves) == 1:
-                row_var, row_ty = next(iter(leaves)), d['inner']
-            try:
-                var_, ty_ = row_var, row_ty
-                if ty_ in sym.INT_TYPES:
-                    vlo, vhi = (0, (1 << sym.INT_TYPES[ty_]) - 1) if ty_[0] == 'u' else (-(1 << (sym.INT_TYPES[ty_] - 1)), (1 << (sym.INT_TYPES[ty_] - 1)) - 1)
-                    notnan = True
-                    ref = refine_int_draw(ex, o.conds, var_, ty_, vlo, vhi)
-                    if ref is None:
-                        proved = True
-                        notnan = False
-                        why = None
-                    else:
-                        vlo, vhi = ref
-                else:
-                    vlo, vhi = float('-inf'), float('inf')
-                    notnan = any(cn[0] == 'call' and cpath(ex, cn).endswith('>::is_nan') and strip_view(ex, cn[2][0]) == var_ and not truth(v)
-                                 or (cn[0] == 'un' and cn[1] == 'Not' and cn[2][0] == 'call' and cpath(ex, cn[2]).endswith('>::is_nan')
-                                     and strip_view(ex, cn[2][2][0]) == var_ and truth(v))
-                                 for cn, v in o.conds)
-                    finite = any(cn[0] == 'call' and cpath(ex, cn).endswith('>::is_finite') and strip_view(ex, cn[2][0]) == var_ and truth(v)
-                                 for cn, v in o.conds)
-                    if finite:
+                cands_ = [(next(iter(leaves)), d['inner'])]
+            for (row_var, row_ty) in cands_:
+                if proved:
+                    break
+                try:
+                    var_, ty_ = row_var, row_ty
+                    if ty_ in sym.INT_TYPES:
+                        vlo, vhi = (0, (1 << sym.INT_TYPES[ty_]) - 1) if ty_[0] == 'u' else (-(1 << (sym.INT_TYPES[ty_] - 1)), (1 << (sym.INT_TYPES[ty_] - 1)) - 1)
                         notnan = True
-                        mx = 3.4028234663852886e38 if ty_ == 'f32' else 1.7976931348623157e308
-                        vlo, vhi = -mx, mx
-                if notnan:
-                    for cn, v in o.conds:
-                        if cn[0] == 'discr':
-                            continue
+                        ref = refine_int_draw(ex, o.conds, var_, ty_, vlo, vhi)
+                        if ref is None:
+                            proved = True
+                            notnan = False
+                            why = None
+                        else:
+                            vlo, vhi = ref
+                    else:
+                        vlo, vhi = float('-inf'), float('inf')
+                        notnan = any(cn[0] == 'call' and cpath(ex, cn).endswith('>::is_nan') and strip_view(ex, cn[2][0]) == var_ and not truth(v)
+                                     or (cn[0] == 'un' and cn[1] == 'Not' and cn[2][0] == 'call' and cpath(ex, cn[2]).endswith('>::is_nan')
+                                         and strip_view(ex, cn[2][2][0]) == var_ and truth(v))
+                                     for cn, v in o.conds)
+                        finite = any(cn[0] == 'call' and cpath(ex, cn).endswith('>::is_finite') and strip_view(ex, cn[2][0]) == var_ and truth(v)
+                                     for cn, v in o.conds)
+                        if finite:
+                            notnan = True
+                            mx = 3.4028234663852886e38 if ty_ == 'f32' else 1.7976931348623157e308
+                            vlo, vhi = -mx, mx
+                    if notnan:
+                        IENV.clear()
                         try:
-                            if not cond_possible(ex, cn, v, var_, ty_, vlo, vhi):
+                            if not refine_by_comparisons(ex, o.conds, var_, ty_, vlo, vhi):
                                 proved = True
-                                break
-                        except Unknown as e:
-                            why = why or str(e)
-                else:
-                    why = why or 'draw may be NaN on this path'
-            except Unknown as e:
-                why = str(e)
+                            for cn, v in o.conds:
+                                if proved:
+                                    break
+                                if cn[0] == 'discr':
+                                    continue
+                                try:
+                                    if not cond_possible(ex, cn, v, var_, ty_, vlo, vhi):
+                                        proved = True
+                                        break
+                                except Unknown as e:
+                                    why = why or str(e)
+                        finally:
+                            IENV.clear()
+                    else:
+                        why = why or 'draw may be NaN on this path'
+                except Unknown as e:
+                    why = str(e)
             rep.ob('R-ARB-FLT', True if proved else None, g,
                    'panic path of arbitrary is unreachable: one of its conditions cannot hold for any draw (interval evaluation)',
                    {'why': why, 'conds': [(show(cn)[:160], str(v)) for cn, v in o.conds][-3:]})
